@@ -13,6 +13,7 @@ the real code by the harness (deterministic witness cases 0–3).
 -/
 import LinVerif.Lemmas.C12Layout
 import LinVerif.Lemmas.C12TopN
+import LinVerif.Lemmas.C12Inter
 import LinVerif.Generated.C12
 
 namespace LinVerif.Props.C12
@@ -156,6 +157,79 @@ theorem partition_invariance (sp0 : List Spec) (cap : Nat) (hs : Simple sp0) (it
       exact ⟨hn.cap_eq, hn.specs_equiv, by rw [hn.cells_eq, naiveCells_perm sp0 hs cap hp'],
         fun t => by rw [hn.keys_iff, naiveGroup_perm hp'],
         fun t f => by rw [hn.touched_iff, naiveTouched_perm sp0 hp']⟩
+
+/-- the data of a node that goes to receiver `j`, over all nodes = the data whose tags hash to `j` -/
+theorem itsFor_nodes (h : Tag → Nat) (r j : Nat) (ns : List Node) :
+    ns.flatMap (Node.itsFor h r j) =
+      ((leavesOf ns).flatMap (·.its)).filter (fun ts => h ts.tags % r == j) := by
+  induction ns with
+  | nil => rfl
+  | cons n ns ih =>
+    cases n with
+    | absent =>
+      have hl : leavesOf (Node.absent :: ns) = leavesOf ns := rfl
+      rw [List.flatMap_cons, ih, hl]; rfl
+    | leaf L =>
+      have hl : leavesOf (Node.leaf L :: ns) = L :: leavesOf ns := rfl
+      rw [List.flatMap_cons, ih, hl, List.flatMap_cons, List.filter_append]; rfl
+
+/-- **partition_invariance** (with intermediate nodes). As `partition_invariance`, but the
+leaves split their groups by `hash(tags) % r` over `r ≥ 1` intermediates (`BuildResultSet`), every
+intermediate `j` handles the shares of all nodes in its OWN order `sched j` (any permutation of
+the nodes) with the same `MetricContext` and sends `makeTaskResponse`; the root handles the `r`
+intermediate responses in ANY order `τ`. The root's aggregator is again the naive aggregate of
+all data — hence equal to the answer without intermediates. -/
+theorem partition_invariance_intermediate (sp0 : List Spec) (cap : Nat) (hs : Simple sp0) (its : List TS)
+    (h : Tag → Nat) (r : Nat) (hr : 0 < r)
+    (ns : List Node) (hOK : ∀ L ∈ leavesOf ns, L.OK sp0) (hne : leavesOf ns ≠ [])
+    (hpart : ((leavesOf ns).flatMap (·.its)).Perm its)
+    (sched : Nat → List Node) (hsched : ∀ j, j < r → (sched j).Perm ns)
+    (τ : List Nat) (hτ : τ.Perm (List.range r)) :
+    let c := (Ctx.new τ.length).handleAll .code
+      (τ.map (fun j => (interCtx h r cap j (sched j)).taskResponse))
+    c.done = true ∧ c.err = none ∧ c.hdrCap = cap ∧ ∃ A, c.agg = some A ∧ IsNaive sp0 cap its A := by
+  intro c
+  have hjr : ∀ j ∈ τ, j < r := fun j hj => List.mem_range.mp (hτ.mem_iff.mp hj)
+  -- every intermediate is a sender for its share
+  obtain ⟨xs, hxs⟩ := exists_list_of_forall_exists τ
+    (fun j (x : Sender sp0 cap) => (interCtx h r cap j (sched j)).taskResponse = respOf (some x) ∧
+      x.S.its = (sched j).flatMap (Node.itsFor h r j))
+    (fun j hj => by
+      have hp := hsched j (hjr j hj)
+      have hl := leavesOf_perm hp
+      exact inter_naive sp0 cap hs h r j (sched j) (fun L hL => hOK L (hl.mem_iff.mp hL))
+        (by intro e; rw [e] at hl; exact hne (List.perm_nil.mp hl.symm)))
+  have hmap : τ.map (fun j => (interCtx h r cap j (sched j)).taskResponse) = (xs.map some).map respOf := by
+    rw [List.map_map]
+    exact forall2_map_eq _ _ τ xs (hxs.imp (fun _ _ hab => hab.1))
+  have hlen : τ.length = (xs.map some).length := by rw [List.length_map]; exact hxs.length_eq
+  have hfm : (xs.map some).filterMap id = xs := by
+    induction xs with
+    | nil => rfl
+    | cons x xs ih => simp
+  have hτne : τ ≠ [] := by
+    intro e; rw [e] at hτ
+    have := hτ.length_eq; simp at this; omega
+  have hxne : (xs.map some).filterMap id ≠ [] := by
+    rw [hfm]; intro e; rw [e] at hxs; cases hxs; exact hτne rfl
+  obtain ⟨hdone, herr, hcap, -, A, hA, -, -, -, hnaive⟩ := ctx_of_senders sp0 cap hs (xs.map some) hxne
+  rw [← hlen, ← hmap] at hdone herr hcap hA
+  refine ⟨hdone, herr, hcap, A, hA, ?_⟩
+  rw [hfm] at hnaive
+  -- the shares, over all receivers, are the data
+  have hdata : (xs.flatMap (fun x => x.S.its)).Perm its := by
+    have e1 : xs.flatMap (fun x => x.S.its) = τ.flatMap (fun j => (sched j).flatMap (Node.itsFor h r j)) :=
+      flatMap_of_forall2 _ _ τ xs (hxs.imp (fun _ _ hab => hab.2))
+    rw [e1]
+    have e2 : (τ.flatMap (fun j => (sched j).flatMap (Node.itsFor h r j))).Perm
+        (τ.flatMap (fun j => its.filter (fun ts => h ts.tags % r == j))) := by
+      apply List.Perm.flatMap_left
+      intro j hj
+      refine ((hsched j (hjr j hj)).flatMap_right _).trans ?_
+      rw [itsFor_nodes]
+      exact hpart.filter _
+    exact e2.trans ((hτ.flatMap_right _).trans (split_perm r hr (fun ts => h ts.tags) its))
+  exact hnaive.perm hs hdata
 
 /-! ## 3. not-found tolerance and nodes without data -/
 
